@@ -3,6 +3,9 @@
 From Coq Require Import List NArith Bool.
 From HV Require Import CharRef.CRModel CharRef.CRSpec CharRef.CRTable CharRef.CRRun CharRef.CRNamed
   CharRef.CRNumeric CharRef.CRTheorems CharRef.CRGenTable CharRef.CRInst CharRef.WhatwgEntities Gen.GenEntities Gen.GenC1.
+From HV Require Import TokIR.IR.
+From HV Require TokIR.Interp.
+From HV Require Import CharRef.CrInterp CharRef.CrInterpInst.
 Import ListNotations.
 Open Scope N_scope.
 
@@ -102,6 +105,122 @@ Theorem C14_total :
   exists chars, o_status (cr_feed T (cr_new in_attr) chunks [] false) = CrDone chars.
 Proof. exact cr_total. Qed.
 Print Assumptions C14_total.
+
+(* ------------------------------------------------------------------ the same, OF THE TOKENIZER INTERPRETER
+   coq/TokIR/Interp.v has its own model of the sub-tokenizer (cr_new / cr_step / cr_read / finish_named /
+   finish_numeric / unconsume_numeric / cr_eof, inside step / run / tok_end).  That interpreter is what runs
+   against the Rust tokenizer on whole documents and what the chunking / line-number / bulk-read theorems are
+   about.  For the html flavour on the flat queue (any exact_errors) it agrees with the C14 model step for step;
+   [to_i] maps the states (same fields; the name buffer is a plain list there), [clean m] = not re-consuming and
+   no CR pending (true right after '&' has been read through get_char), [post m q k m'] = m' is m with queue q
+   and k more parse errors, [agrees] = no panic site reached, same result (Stuck / Progress to the [to_i]-image of
+   the model's next state / Done with the same characters for process_char_ref), the queue the model predicts
+   (same consumed input, same pushed-back characters), as many parse errors as the model lists. *)
+Theorem C14_interp_step :
+  forall (S : Type) (fl : Interp.flavour S), Interp.f_html fl = true ->
+  forall (ex : bool) (T : entity_table) (c1 : N -> option N),
+  (forall n, in_range 0x80 0x9F n = true -> c1 n = c1_of_list CRModel.c1_replacements n) ->
+  values_scalar T ->
+  forall ad t (m : Interp.mach S (list N)), wf t -> clean m ->
+  agrees ad m 0 (CRModel.cr_step T t (Interp.mq m))
+         (Interp.cr_step Interp.fq_next Interp.fq_peek (@app N) fl ex T c1 (to_i ad t) m).
+Proof. exact @sim_step. Qed.
+Print Assumptions C14_interp_step.
+
+Theorem C14_interp_eof :
+  forall (S : Type) (fl : Interp.flavour S), Interp.f_html fl = true ->
+  forall (T : entity_table) (c1 : N -> option N),
+  (forall n, in_range 0x80 0x9F n = true -> c1 n = c1_of_list CRModel.c1_replacements n) ->
+  forall ad t (m : Interp.mach S (list N)), wf t -> clean m ->
+  let o := CRModel.cr_eof T t (Interp.mq m) in
+  exists chars, o_status o = CRModel.CrDone chars /\
+    fst (Interp.cr_eof (@app N) fl c1 (to_i ad t) m) = chars /\
+    post m (o_q o) (length (o_errs o)) (snd (Interp.cr_eof (@app N) fl c1 (to_i ad t) m)).
+Proof. exact @sim_eof. Qed.
+Print Assumptions C14_interp_eof.
+
+(* a whole reference: from a machine that has just read '&' (the ConsumeCharRef terminator: cref := Some (cr_new
+   in_attr addnl)) with the rest of the input in its queue, the interpreter's run hands to process_char_ref exactly
+   the characters the model delivers ([] = '&' itself), leaves exactly the queue the model leaves, reports as many
+   parse errors - either inside the input or, when the input runs out, through Tokenizer::end() ([delivers]) *)
+Theorem C14_interp_whole :
+  forall (S : Type) (fl : Interp.flavour S), Interp.f_html fl = true ->
+  forall (ex : bool) (T : entity_table) (c1 : N -> option N),
+  (forall n, in_range 0x80 0x9F n = true -> c1 n = c1_of_list CRModel.c1_replacements n) ->
+  values_scalar T ->
+  forall tb simd sk ad in_attr (m : Interp.mach S (list N)),
+  clean m -> Interp.cref (Interp.mc m) = Some (Interp.cr_new in_attr ad) ->
+  let w := cr_whole T in_attr (Interp.mq m) in
+  exists chars, o_status w = CRModel.CrDone chars /\
+                delivers fl ex T c1 tb simd sk m chars (o_q w) (length (o_errs w)).
+Proof. exact @interp_whole. Qed.
+Print Assumptions C14_interp_whole.
+
+(* C14_named transported: every prefix-closed table, every input, text and attribute *)
+Theorem C14_interp_named :
+  forall (S : Type) (fl : Interp.flavour S), Interp.f_html fl = true ->
+  forall (ex : bool) (T : entity_table) (c1 : N -> option N),
+  (forall n, in_range 0x80 0x9F n = true -> c1 n = c1_of_list CRModel.c1_replacements n) ->
+  values_scalar T ->
+  forall tb simd sk, table_ok T ->
+  forall ad in_attr (m : Interp.mach S (list N)) c0 r0,
+  clean m -> Interp.cref (Interp.mc m) = Some (Interp.cr_new in_attr ad) ->
+  Interp.mq m = c0 :: r0 -> CRModel.is_alnum c0 = true ->
+  let input := c0 :: r0 in
+  (forall n rest v, longest_name T input n rest v ->
+     if legacy_exception in_attr n rest
+     then exists ne, delivers fl ex T c1 tb simd sk m [] input ne
+     else exists ne, delivers fl ex T c1 tb simd sk m (chars_of v) rest ne) /\
+  (no_name T input -> exists ne, delivers fl ex T c1 tb simd sk m [] input ne).
+Proof. exact @interp_named_spec. Qed.
+Print Assumptions C14_interp_named.
+
+(* the html interpreter as it is instantiated (entity lookup in the regenerated NAMED_ENTITIES, regenerated
+   C1_REPLACEMENTS), against the WHATWG table *)
+Theorem C14_interp_named_html :
+  forall ex tb simd sk ad in_attr (m : Interp.mach hstate (list N)) c0 r0,
+  clean m -> Interp.cref (Interp.mc m) = Some (Interp.cr_new in_attr ad) ->
+  Interp.mq m = c0 :: r0 -> CRModel.is_alnum c0 = true ->
+  exists chars rest ne, named_result whatwg_table in_attr (c0 :: r0) chars rest /\
+                        delivers Interp.html_flavour ex html_ent html_c1 tb simd sk m chars rest ne.
+Proof. exact html_interp_named. Qed.
+Print Assumptions C14_interp_named_html.
+
+Theorem C14_interp_numeric_html :
+  forall ex tb simd sk ad in_attr (m : Interp.mach hstate (list N)) base marker ds rest,
+  clean m -> Interp.cref (Interp.mc m) = Some (Interp.cr_new in_attr ad) ->
+  Interp.mq m = CH_HASH :: marker ++ ds ++ rest ->
+  num_shape base marker -> ds <> [] -> forallb (CRSpec.is_digit base) ds = true -> ends_digits base rest ->
+  exists ne, delivers Interp.html_flavour ex html_ent html_c1 tb simd sk m
+                      [whatwg_numeric (digits_value base ds 0)] (strip_semi rest) ne.
+Proof. exact html_interp_numeric. Qed.
+Print Assumptions C14_interp_numeric_html.
+
+Theorem C14_interp_numeric_no_digits_html :
+  forall ex tb simd sk ad in_attr (m : Interp.mach hstate (list N)) base marker rest,
+  clean m -> Interp.cref (Interp.mc m) = Some (Interp.cr_new in_attr ad) ->
+  Interp.mq m = CH_HASH :: marker ++ rest ->
+  num_shape base marker -> ends_digits base rest ->
+  (base = 10 -> match rest with c :: _ => (c =? CH_x) || (c =? CH_X) = false | [] => True end) ->
+  exists ne, delivers Interp.html_flavour ex html_ent html_c1 tb simd sk m [] (CH_HASH :: marker ++ rest) ne.
+Proof. exact html_interp_numeric_no_digits. Qed.
+Print Assumptions C14_interp_numeric_no_digits_html.
+
+Theorem C14_interp_non_reference_html :
+  forall ex tb simd sk ad in_attr (m : Interp.mach hstate (list N)),
+  clean m -> Interp.cref (Interp.mc m) = Some (Interp.cr_new in_attr ad) ->
+  match Interp.mq m with c :: _ => CRModel.is_alnum c = false /\ c <> CH_HASH | [] => True end ->
+  exists ne, delivers Interp.html_flavour ex html_ent html_c1 tb simd sk m [] (Interp.mq m) ne.
+Proof. exact html_interp_non_reference. Qed.
+Print Assumptions C14_interp_non_reference_html.
+
+(* the ConsumeCharRef terminator produces the starting state of these theorems *)
+Theorem C14_interp_start :
+  forall (S Q : Type) (fl : Interp.flavour S) sk addnl (m : Interp.mach S Q),
+  Interp.cref (Interp.mc (fst (Interp.do_term fl sk (ConsumeCharRef addnl) m))) =
+  Some (Interp.cr_new (Interp.f_is_attr_value fl (Interp.st (Interp.mc m))) addnl).
+Proof. exact @consume_char_ref_starts. Qed.
+Print Assumptions C14_interp_start.
 
 (* non-vacuity: the model on the generated table does what the statement is about.
    "&notit;" -> U+00AC then "it;" ; attribute "&not=" -> untouched ; "&#x80;" -> U+20AC ;
